@@ -6,6 +6,8 @@
 // altered => an honest helper must fail / never finish; for table messages (TransferXY / TransferC)
 // and held rows that is required strictly, for all other shuffle traffic the safe disjunct
 // (abort, or unchanged multiset) is required.
+// Row-permutation monitor (malicious variant): two whole rows (with tags) of one table message exchanged (`verif_c05_row_permutation`).
+// Key-share-shift monitor: a rushing helper shifts the MAC key share it opens (`verif_c05_key_share_shift_attack`).
 // Adaptive monitor (malicious variant): a rushing helper that forges the tag of an altered row with a MAC key it
 // has already been given (see `verif_c05_adaptive_key_attack`). Large-table monitor: one table of more than 2^20 rows.
 
@@ -853,6 +855,656 @@ fn verif_c05_adaptive_key_attack() {
                         1 => adaptive_config::<AdditiveShare<BA64>>(&mut rec, &env, idx, n, shards),
                         2 => adaptive_config::<IndistinguishableHybridReport<BA8, BA3>>(&mut rec, &env, idx, n, shards),
                         _ => adaptive_config::<AggregateableHybridReport<BA8, BA3>>(&mut rec, &env, idx, n, shards),
+                    }
+                }
+            }
+        }
+    }
+    rec.finish();
+}
+
+// ---------------------------------------------------------------------------------------------
+// row permutation inside one table message
+// ---------------------------------------------------------------------------------------------
+//
+// A corrupt helper sends one of its tables (X2, Y1, C1, C2) with two whole rows (row content AND tag) exchanged. Every
+// single row still carries a valid tag, only the POSITION of the rows is wrong; the receiver combines row i of the table
+// with row i of a table it holds, so both rows reconstruct to garbage. A sender knows its whole table before the first
+// row leaves (mask_and_shuffle / the PRSS tables are complete before send_all / the C exchange start), so the rewrite is
+// done on the wire with the table bytes of an honest reference run with the same world seed (identical PRSS, hence
+// identical tables; re-checked byte by byte on the attack run's own traffic): wherever a byte of row a passes, the byte
+// of row b at the same offset is handed to the receiver, and vice versa. Rows may lie in different transport chunks.
+
+#[derive(Clone, Debug)]
+struct PermPlan {
+    src: u8,
+    dst: u8,
+    gate_pat: &'static str,
+    shard: u32,
+    /// bytes of one row-with-tag on the wire
+    msg: usize,
+    row_a: usize,
+    row_b: usize,
+    /// the table as sent in the reference run
+    reference: Vec<u8>,
+}
+
+type TableKey = (u8, u8, u32, &'static str);
+
+#[derive(Default)]
+struct PermState {
+    plan: Option<PermPlan>,
+    /// original bytes and chunk lengths of every table channel (src, dst, shard, transfer_x_y | transfer_c)
+    tables: BTreeMap<TableKey, (Vec<u8>, Vec<usize>)>,
+    bytes_rewritten: usize,
+    bytes_changed: usize,
+    mismatch: bool,
+}
+
+fn table_gate(gate: &str) -> Option<&'static str> {
+    if gate.contains("transfer_x_y") {
+        Some("transfer_x_y")
+    } else if gate.contains("transfer_c") {
+        Some("transfer_c")
+    } else {
+        None
+    }
+}
+
+fn perm_tap(state: Arc<Mutex<PermState>>) -> DynStreamInterceptor {
+    Arc::new(move |ctx: &InspectContext, data: &mut Vec<u8>| {
+        let InspectContext::MpcMessage { shard, source, dest, gate } = ctx else { return };
+        let Some(fam) = table_gate(gate.as_ref()) else { return };
+        let mut guard = state.lock().unwrap_or_else(|e| e.into_inner());
+        let st = &mut *guard;
+        let (src, dst) = (role_no(*source), role_no(*dest));
+        let shard = shard.map(u32::from).unwrap_or(0);
+        let entry = st.tables.entry((src, dst, shard, fam)).or_default();
+        let start = entry.0.len();
+        entry.0.extend_from_slice(data);
+        entry.1.push(data.len());
+        let Some(plan) = st.plan.as_ref() else { return };
+        if (src, dst, shard, fam) != (plan.src, plan.dst, plan.shard, plan.gate_pat) {
+            return;
+        }
+        for (i, byte) in data.iter_mut().enumerate() {
+            let p = start + i;
+            let (row, off) = (p / plan.msg, p % plan.msg);
+            let other = if row == plan.row_a {
+                plan.row_b
+            } else if row == plan.row_b {
+                plan.row_a
+            } else {
+                continue;
+            };
+            let q = other * plan.msg + off;
+            if plan.reference.get(p) != Some(&*byte) || q >= plan.reference.len() {
+                st.mismatch = true;
+                continue;
+            }
+            st.bytes_rewritten += 1;
+            if *byte != plan.reference[q] {
+                st.bytes_changed += 1;
+            }
+            *byte = plan.reference[q];
+        }
+    })
+}
+
+fn run_perm<R: Row>(case: &ShufCase, plan: Option<PermPlan>) -> (ShufRun, PermState) {
+    let st = Arc::new(Mutex::new(PermState { plan, ..Default::default() }));
+    let run = run::<R>(case, Some(perm_tap(Arc::clone(&st))));
+    let st = std::mem::take(&mut *st.lock().unwrap_or_else(|e| e.into_inner()));
+    (run, st)
+}
+
+fn permutation_config<R: Row>(rec: &mut Recorder, env: &vlib::Env, idx: usize, n: usize, shards: usize) {
+    let mut r = VRng::new(env.seed ^ 0xc05b, idx as u64);
+    let values = gen_values::<R>(n, &mut r, idx % 4 == 0);
+    let (assign, dname) = assign(idx / 2, n, shards, &mut r);
+    let case = ShufCase { values: values.clone(), assign, shards, malicious: true,
+        world_seed: env.seed.wrapping_mul(104_729) + idx as u64, held_row_fault: None, mt: false };
+    let msg = <R as MaliciousShuffleable>::TAG_OFFSET + 4;
+    rec.seen("row_permutation_classes", format!("{}/S{shards}/n{n}/{dname}", R::NAME));
+    let (honest, href) = run_perm::<R>(&case, None);
+    rec.count("row_permutation_reference_runs");
+    let ok = honest.outs.iter().all(|o| o.iter().all(Out::is_ok))
+        && reconstruct(&honest, None).map(sorted).as_ref() == Ok(&sorted(values.clone()));
+    if !ok {
+        rec.inconclusive(format!("honest pass of row-permutation config {idx} ({}) failed; decided by verif_c05_honest", R::NAME));
+        return;
+    }
+    for &(attacker, table, gate_pat, dst) in &ADV_TABLES {
+        // channels of this table (one per shard) that carry at least two whole rows
+        let chans: Vec<(u32, &(Vec<u8>, Vec<usize>))> = href.tables.iter()
+            .filter(|((s, d, _, g), (bytes, _))| (*s, *d, *g) == (attacker, dst, gate_pat) && bytes.len() >= 2 * msg)
+            .map(|((_, _, sh, _), t)| (*sh, t))
+            .collect();
+        let who = format!("H{}/{table}", attacker + 1);
+        if chans.is_empty() {
+            rec.count("row_permutation_no_table_with_two_rows");
+            continue;
+        }
+        if chans.iter().any(|(_, (bytes, _))| bytes.len() % msg != 0) {
+            rec.inconclusive(format!("row-permutation config {idx} {who}: table bytes are not a multiple of the row width {msg}"));
+            continue;
+        }
+        // (a) two rows of one transport chunk, (b) if the table spans several chunks: two rows of different chunks
+        for variant in 0..2 {
+            let (shard, (bytes, chunk_lens)) = chans[r.below(chans.len() as u64) as usize];
+            let rows = bytes.len() / msg;
+            let chunk_of = |row: usize| {
+                let (mut acc, byte) = (0usize, row * msg);
+                chunk_lens.iter().position(|l| { acc += l; byte < acc }).unwrap_or(0)
+            };
+            let row_a = r.below(rows as u64) as usize;
+            let cands: Vec<usize> = (0..rows).filter(|b| *b != row_a && (chunk_of(*b) == chunk_of(row_a)) == (variant == 0)).collect();
+            if cands.is_empty() {
+                if variant == 0 { rec.count("row_permutation_row_alone_in_its_chunk") }
+                continue;
+            }
+            let row_b = cands[r.below(cands.len() as u64) as usize];
+            let placement = if variant == 0 { "same_chunk" } else { "different_chunks" };
+            let plan = PermPlan { src: attacker, dst, gate_pat, shard, msg, row_a, row_b, reference: bytes.clone() };
+            let (run, st) = run_perm::<R>(&case, Some(plan));
+            rec.eval();
+            rec.count("row_permutation_runs");
+            if st.mismatch || st.bytes_rewritten != 2 * msg {
+                rec.inconclusive(format!("row-permutation config {idx} {who}: the table of the attack run differs from the reference run (same world seed) or was not rewritten completely ({} of {} bytes)", st.bytes_rewritten, 2 * msg));
+                continue;
+            }
+            if st.bytes_changed == 0 {
+                rec.count("row_permutation_of_identical_rows");
+                continue;
+            }
+            rec.count("row_permutation_applied");
+            rec.count(&format!("row_permutation_applied/{who}"));
+            rec.count(&format!("row_permutation_applied/{placement}"));
+            rec.seen("row_permutation_tables", format!("{who}/{}/{placement}/{}", R::NAME, if shards > 1 { "multi_shard" } else { "one_shard" }));
+            let corrupt = attacker as usize;
+            let honest_ok = run.outs.iter().all(|o| (0..3).filter(|h| *h != corrupt).all(|h| o[h].is_ok()));
+            if !honest_ok {
+                rec.count("row_permutation_detected");
+                rec.distinct(&(R::NAME, shards, n, who.as_str(), placement, "detected"));
+                continue;
+            }
+            let witness = || json!({"case": idx, "shuffle_case": case.to_json(R::NAME), "attacker": who, "shard": shard, "rows_in_table": rows,
+                                    "swapped_rows": [row_a, row_b], "placement": placement, "chunk_lens": chunk_lens.iter().take(16).collect::<Vec<_>>(),
+                                    "outs": outs_json(&run)});
+            let sig = |outcome: &str| json!({"kind": "row_permutation_accepted", "table": table, "attacker": format!("H{}", attacker + 1),
+                                             "type": R::NAME, "multi_shard": shards > 1, "outcome": outcome});
+            match reconstruct(&run, Some(corrupt)) {
+                Ok(rows_out) if sorted(rows_out.clone()) == sorted(values.clone()) => {
+                    // nobody noticed, but no row was lost or altered: not claimed
+                    rec.count("row_permutation_without_effect");
+                    if rec.want_sample() {
+                        rec.sample(json!({"row_permutation_without_effect": witness()}));
+                    }
+                    rec.distinct(&(R::NAME, shards, n, who.as_str(), placement, "without_effect"));
+                }
+                Ok(rows_out) => {
+                    let (mut gone, mut new): (Vec<u128>, Vec<u128>) = (sorted(values.clone()), sorted(rows_out));
+                    let (g2, n2) = (gone.clone(), new.clone());
+                    gone.retain(|v| n2.binary_search(v).is_err());
+                    new.retain(|v| g2.binary_search(v).is_err());
+                    rec.violation(
+                        "a helper exchanged two rows (with their tags) of a table it sent, every honest helper returned rows, and input rows were lost",
+                        sig("multiset_changed"),
+                        json!({"w": witness(), "rows_gone": gone.iter().take(4).map(|v| format!("{v:x}")).collect::<Vec<_>>(),
+                               "rows_new": new.iter().take(4).map(|v| format!("{v:x}")).collect::<Vec<_>>()}),
+                    );
+                }
+                Err(e) => rec.violation(
+                    "a helper exchanged two rows (with their tags) of a table it sent; every honest helper returned rows, but inconsistent ones",
+                    sig("inconsistent_output"),
+                    json!({"w": witness(), "detail": e}),
+                ),
+            }
+        }
+    }
+}
+
+#[test]
+fn verif_c05_row_permutation() {
+    let env = vlib::env();
+    let mut rec = Recorder::new("C05", "verif_c05_row_permutation");
+    let only = c05_replay_case();
+    if env.replay.is_some() && only.is_none() {
+        rec.finish();
+        return;
+    }
+    // 2..10 rows: tables of one chunk, some shards with a single row or none; 100 / 300 rows: tables of several chunks
+    let sizes: &[usize] = if env.thorough { &[2, 3, 5, 10, 33, 100, 300, 700] } else { &[2, 3, 10, 100, 300] };
+    let mut idx = 0usize;
+    for ti in 0..4 {
+        for shards in 1..=3usize {
+            for &n in sizes {
+                for _rep in 0..env.pick(1, 3) {
+                    idx += 1;
+                    if !env.mine(idx) || only.is_some_and(|c| c != idx) {
+                        continue;
+                    }
+                    match ti {
+                        0 => permutation_config::<AdditiveShare<BA32>>(&mut rec, &env, idx, n, shards),
+                        1 => permutation_config::<AdditiveShare<BA64>>(&mut rec, &env, idx, n, shards),
+                        2 => permutation_config::<IndistinguishableHybridReport<BA8, BA3>>(&mut rec, &env, idx, n, shards),
+                        _ => permutation_config::<AggregateableHybridReport<BA8, BA3>>(&mut rec, &env, idx, n, shards),
+                    }
+                }
+            }
+        }
+    }
+    rec.finish();
+}
+
+// ---------------------------------------------------------------------------------------------
+// adaptive (rushing) adversary that shifts the MAC key one honest helper opens
+// ---------------------------------------------------------------------------------------------
+//
+// The keys are opened with a reveal in which every helper is sent the share it is missing by BOTH peers and compares the
+// two copies. Without that comparison the helper on the left of an honest helper V decides which key V opens: it sends
+// V its share shifted by `delta`, and V checks its tables with k + delta while the third helper uses k. The check value
+// of a row-with-tag (w_1..w_n, t) is sum_j k_j w_j + t; V's digests are compared with digests made with k. An attacker
+// that altered word j0 of row r0 of a table by d therefore needs, for every row r of every table T whose digest V
+// makes and an honest helper compares,   sum_j delta_j * T'[r][j] = k_j0 * d * [r = r0]   (T' = the rows as V holds them)
+// - one linear equation per row, one unknown per 32-bit word: solvable for tiny tables (one row of 32 bits: delta =
+// k*d/(x+d)). The attacker needs k for this, i.e. it must be rushing: it shifts its own RevealMACKey message only if
+// the share it is missing has been delivered to it (any shard) when that message is handed to V ("known at that time"
+// as in the monitor above; the table itself is altered when it is sent, no key is needed for that).
+//   * H1 -> V = H2: H2 makes digests of X2 (compared with H3's digest of Y2) and of C (sent to H1, the attacker).
+//     Attacked table X2; constraints: the rows of X2 on that shard.
+//   * H2 -> V = H3: H3 makes digests of Y1 and C = C1 + C2 (both compared by H1) and of Y2 (sent to H2, the attacker).
+//     Attacked table C1; constraints: the rows of Y1 and of C1' + C2 on that shard (H2 sent Y1 and C1 and was sent C2).
+//   * H3 -> V = H1: H1's digests are over X1 and A + B, which H3 does not know: not possible on the wire.
+
+fn gf32_inv(a: u32) -> u32 {
+    // a^(2^32 - 2)
+    let (mut acc, mut sq) = (1u32, a);
+    for _ in 1..32 {
+        sq = gf32_mul(sq, sq);
+        acc = gf32_mul(acc, sq);
+    }
+    acc
+}
+
+/// Solves `m * x = rhs` over GF(2^32) (free unknowns are set to 0); None when there is no solution.
+fn gf32_solve(mut m: Vec<Vec<u32>>, mut rhs: Vec<u32>, nvars: usize) -> Option<Vec<u32>> {
+    let mut pivots: Vec<(usize, usize)> = Vec::new();
+    let mut row = 0usize;
+    for col in 0..nvars {
+        let Some(p) = (row..m.len()).find(|r| m[*r][col] != 0) else { continue };
+        m.swap(row, p);
+        rhs.swap(row, p);
+        let inv = gf32_inv(m[row][col]);
+        for c in 0..nvars {
+            m[row][c] = gf32_mul(m[row][c], inv);
+        }
+        rhs[row] = gf32_mul(rhs[row], inv);
+        for r in 0..m.len() {
+            if r != row && m[r][col] != 0 {
+                let f = m[r][col];
+                for c in 0..nvars {
+                    let t = gf32_mul(f, m[row][c]);
+                    m[r][c] ^= t;
+                }
+                rhs[r] ^= gf32_mul(f, rhs[row]);
+            }
+        }
+        pivots.push((row, col));
+        row += 1;
+        if row == m.len() {
+            break;
+        }
+    }
+    if (row..m.len()).any(|r| rhs[r] != 0) {
+        return None;
+    }
+    let mut x = vec![0u32; nvars];
+    for (r, c) in pivots {
+        x[c] = rhs[r];
+    }
+    Some(x)
+}
+
+/// the 32-bit words of the rows (without tags) of a table given as wire bytes
+fn table_words(bytes: &[u8], msg: usize, tag_off: usize) -> Vec<Vec<u32>> {
+    bytes
+        .chunks_exact(msg)
+        .map(|row| {
+            row[..tag_off]
+                .chunks(4)
+                .map(|w| {
+                    let mut b = [0u8; 4];
+                    b[..w.len()].copy_from_slice(w);
+                    u32::from_le_bytes(b)
+                })
+                .collect()
+        })
+        .collect()
+}
+
+#[derive(Clone, Debug)]
+struct ShiftPlan {
+    attacker: u8,
+    victim: u8,
+    table: &'static str,
+    gate_pat: &'static str,
+    shard: u32,
+    msg: usize,
+    tag_off: usize,
+    nkeys: usize,
+    row: usize,
+    word: usize,
+    d: u32,
+    /// reference-run values of the three key shares: the attacker's own two and the one it is sent
+    own_left: Vec<u8>,
+    own_right: Vec<u8>,
+    ref_missing: Vec<u8>,
+}
+
+#[derive(Clone, Debug)]
+struct ShiftApplied {
+    seq: u64,
+    share_from: u8,
+    share_shard: u32,
+    share_seq: u64,
+    constraint_rows: usize,
+    deltas: Vec<u32>,
+}
+
+#[derive(Default)]
+struct ShiftState {
+    plan: Option<ShiftPlan>,
+    seq: u64,
+    /// RevealMACKey bytes per (src, dst, shard) as sent: (seq of the first chunk, bytes)
+    reveal: BTreeMap<(u8, u8, u32), (u64, Vec<u8>)>,
+    /// table bytes per channel as handed to the receiver
+    tables: BTreeMap<TableKey, Vec<u8>>,
+    table_bytes_altered: usize,
+    /// Ok = key share shifted, Err = why not
+    decision: Option<Result<ShiftApplied, &'static str>>,
+    mismatch: bool,
+}
+
+fn shift_decide(st: &ShiftState, plan: &ShiftPlan, seq: u64) -> Result<ShiftApplied, &'static str> {
+    if st.table_bytes_altered == 0 {
+        return Err("table_not_altered");
+    }
+    let need = 4 * plan.nkeys;
+    let Some((share_from, share_shard, share_seq, missing)) = st
+        .reveal
+        .iter()
+        .filter(|((s, d, _), (_, v))| *d == plan.attacker && *s != plan.attacker && v.len() >= need)
+        .min_by_key(|(_, (sq, _))| *sq)
+        .map(|((s, _, sh), (sq, v))| (*s, *sh, *sq, v[..need].to_vec()))
+    else {
+        return Err("key_not_yet_known");
+    };
+    if missing != plan.ref_missing {
+        return Err("share_mismatch");
+    }
+    let key: Vec<u32> = xor3(&plan.own_left, &plan.own_right, &missing).chunks_exact(4).map(le32).collect();
+    let get = |s: u8, d: u8, g: &'static str| st.tables.get(&(s, d, plan.shard, g)).cloned().unwrap_or_default();
+    // the rows whose check values the victim computes with the key it opens and an honest helper compares
+    let (rows, r0): (Vec<Vec<u32>>, usize) = if plan.attacker == 0 {
+        let x2 = get(0, 1, "transfer_x_y");
+        if x2.len() % plan.msg != 0 {
+            return Err("table_incomplete");
+        }
+        (table_words(&x2, plan.msg, plan.tag_off), plan.row)
+    } else {
+        let (y1, c1, c2) = (get(1, 2, "transfer_x_y"), get(1, 2, "transfer_c"), get(2, 1, "transfer_c"));
+        if y1.len() % plan.msg != 0 || c1.len() % plan.msg != 0 || c1.len() != c2.len() {
+            return Err("table_incomplete");
+        }
+        let c: Vec<u8> = c1.iter().zip(&c2).map(|(a, b)| a ^ b).collect();
+        let mut rows = table_words(&y1, plan.msg, plan.tag_off);
+        let r0 = rows.len() + plan.row;
+        rows.extend(table_words(&c, plan.msg, plan.tag_off));
+        (rows, r0)
+    };
+    if r0 >= rows.len() {
+        return Err("table_incomplete");
+    }
+    let mut rhs = vec![0u32; rows.len()];
+    rhs[r0] = gf32_mul(key[plan.word], plan.d);
+    let n = rows.len();
+    match gf32_solve(rows, rhs, plan.nkeys) {
+        Some(deltas) => Ok(ShiftApplied { seq, share_from, share_shard, share_seq, constraint_rows: n, deltas }),
+        None => Err("no_solution"),
+    }
+}
+
+fn shift_tap(state: Arc<Mutex<ShiftState>>) -> DynStreamInterceptor {
+    Arc::new(move |ctx: &InspectContext, data: &mut Vec<u8>| {
+        let InspectContext::MpcMessage { shard, source, dest, gate } = ctx else { return };
+        let mut guard = state.lock().unwrap_or_else(|e| e.into_inner());
+        let st = &mut *guard;
+        st.seq += 1;
+        let seq = st.seq;
+        let (src, dst) = (role_no(*source), role_no(*dest));
+        let shard = shard.map(u32::from).unwrap_or(0);
+        let gate = gate.as_ref();
+        if gate.contains("reveal_m_a_c_key") {
+            let e = st.reveal.entry((src, dst, shard)).or_insert_with(|| (seq, Vec::new()));
+            let start = e.1.len();
+            e.1.extend_from_slice(data);
+            let Some(plan) = st.plan.clone() else { return };
+            if (src, dst, shard) != (plan.attacker, plan.victim, plan.shard) {
+                return;
+            }
+            // the attacker's own key share is handed to the victim
+            if data.iter().enumerate().any(|(i, b)| plan.own_left.get(start + i) != Some(b)) {
+                st.mismatch = true;
+                return;
+            }
+            if st.decision.is_none() {
+                let dec = shift_decide(st, &plan, seq);
+                st.decision = Some(dec);
+            }
+            if let Some(Ok(ap)) = &st.decision {
+                for (i, b) in data.iter_mut().enumerate() {
+                    let p = start + i;
+                    *b ^= ap.deltas[p / 4].to_le_bytes()[p % 4];
+                }
+            }
+            return;
+        }
+        let Some(fam) = table_gate(gate) else { return };
+        let start = st.tables.get(&(src, dst, shard, fam)).map_or(0, Vec::len);
+        if let Some(plan) = st.plan.as_ref() {
+            if (src, dst, shard, fam) == (plan.attacker, plan.victim, plan.shard, plan.gate_pat) {
+                let at = plan.row * plan.msg + 4 * plan.word;
+                let d = plan.d.to_le_bytes();
+                for b in 0..4 {
+                    let p = at + b;
+                    if 4 * plan.word + b < plan.tag_off && p >= start && p < start + data.len() {
+                        data[p - start] ^= d[b];
+                        if d[b] != 0 {
+                            st.table_bytes_altered += 1;
+                        }
+                    }
+                }
+            }
+        }
+        st.tables.entry((src, dst, shard, fam)).or_default().extend_from_slice(data);
+    })
+}
+
+fn run_shift<R: Row>(case: &ShufCase, plan: Option<ShiftPlan>) -> (ShufRun, ShiftState) {
+    let st = Arc::new(Mutex::new(ShiftState { plan, ..Default::default() }));
+    let run = run::<R>(case, Some(shift_tap(Arc::clone(&st))));
+    let st = std::mem::take(&mut *st.lock().unwrap_or_else(|e| e.into_inner()));
+    (run, st)
+}
+
+fn err_class(o: &Out) -> &'static str {
+    match o {
+        Out::Ok(_) => "ok",
+        Out::Err(e) if e.contains("MaliciousRevealFailed") => "reveal_error",
+        Out::Err(e) if e.contains("ShuffleValidationFailed") => "shuffle_validation_error",
+        Out::Err(_) => "other_error",
+        Out::Panic(_) => "panic",
+        Out::NoOutput => "no_output",
+    }
+}
+
+fn key_shift_config<R: Row>(rec: &mut Recorder, env: &vlib::Env, idx: usize, n: usize, shards: usize) {
+    let mut r = VRng::new(env.seed ^ 0xc05c, idx as u64);
+    let values = gen_values::<R>(n, &mut r, false);
+    let (assign, dname) = assign(idx, n, shards, &mut r);
+    let case = ShufCase { values: values.clone(), assign, shards, malicious: true,
+        world_seed: env.seed.wrapping_mul(15_485_863) + idx as u64, held_row_fault: None, mt: false };
+    let tag_off = <R as MaliciousShuffleable>::TAG_OFFSET;
+    let (msg, nkeys) = (tag_off + 4, tag_off.div_ceil(4));
+    rec.seen("key_share_shift_classes", format!("{}/S{shards}/n{n}/{dname}", R::NAME));
+    let (honest, href) = run_shift::<R>(&case, None);
+    rec.count("key_share_shift_reference_runs");
+    let ok = honest.outs.iter().all(|o| o.iter().all(Out::is_ok))
+        && reconstruct(&honest, None).map(sorted).as_ref() == Ok(&sorted(values.clone()));
+    if !ok {
+        rec.inconclusive(format!("honest pass of key-share-shift config {idx} ({}) failed; decided by verif_c05_honest", R::NAME));
+        return;
+    }
+    // share s_i of the key vector is what H_i sends to its right peer; it must be the same on every shard
+    let mut s: Vec<Vec<u8>> = Vec::new();
+    for i in 0..3u8 {
+        let per_shard: Vec<Option<&Vec<u8>>> = (0..shards as u32).map(|sh| href.reveal.get(&(i, (i + 1) % 3, sh)).map(|x| &x.1)).collect();
+        match per_shard[0] {
+            Some(v) if v.len() == 4 * nkeys && per_shard.iter().all(|x| *x == Some(v)) => s.push(v.clone()),
+            _ => {
+                rec.inconclusive(format!("key-share-shift config {idx}: key-reveal traffic H{} -> H{} of the reference run not understood", i + 1, (i + 1) % 3 + 1));
+                return;
+            }
+        }
+    }
+    // every other copy that is sent must be the copy of the same share
+    for ((src, dst, _), (_, v)) in &href.reveal {
+        let which = if *dst == (*src + 1) % 3 { *src } else { (*src + 1) % 3 };
+        if *v != s[which as usize] {
+            rec.inconclusive(format!("key-share-shift config {idx}: reference run: H{} sent H{} a share that differs from the one its peer holds", src + 1, dst + 1));
+            return;
+        }
+    }
+    let rows_on = |src: u8, dst: u8, sh: u32, g: &'static str| href.tables.get(&(src, dst, sh, g)).map_or(0, |b| b.len() / msg);
+    for &(attacker, table, gate_pat, victim) in &[(0u8, "x2", "transfer_x_y", 1u8), (1, "c1", "transfer_c", 2)] {
+        let who = format!("H{}/{table}", attacker + 1);
+        // shards on which the attacked table is not empty and the victim's compared tables have at most one row per key
+        let cands: Vec<(u32, usize)> = (0..shards as u32)
+            .filter_map(|sh| {
+                let own = rows_on(attacker, victim, sh, gate_pat);
+                let all = if attacker == 0 { own } else { own + rows_on(1, 2, sh, "transfer_x_y") };
+                (own >= 1 && all <= nkeys).then_some((sh, own))
+            })
+            .collect();
+        if cands.is_empty() {
+            rec.count("key_share_shift_no_tiny_table");
+            continue;
+        }
+        let (shard, rows) = cands[r.below(cands.len() as u64) as usize];
+        let words = R::ID_BITS.div_ceil(32) as u64; // only words that carry row content
+        let word = r.below(words) as usize;
+        let vb = (R::ID_BITS - 32 * word as u32).min(32);
+        let m = if vb == 32 { u32::MAX } else { (1u32 << vb) - 1 };
+        let d = match (r.next() as u32) & m {
+            0 => 1,
+            d => d,
+        };
+        let a = attacker as usize;
+        let plan = ShiftPlan { attacker, victim, table, gate_pat, shard, msg, tag_off, nkeys, row: r.below(rows as u64) as usize, word, d,
+            own_left: s[a].clone(), own_right: s[(a + 1) % 3].clone(), ref_missing: s[(a + 2) % 3].clone() };
+        let (run, st) = run_shift::<R>(&case, Some(plan.clone()));
+        rec.eval();
+        rec.count("key_share_shift_runs");
+        if st.mismatch || matches!(st.decision, Some(Err("share_mismatch"))) {
+            rec.inconclusive(format!("key-share-shift config {idx} {who}: key shares differ between the reference run and the attack run (same world seed)"));
+            continue;
+        }
+        let ap = match st.decision.clone() {
+            Some(Ok(ap)) => ap,
+            Some(Err(why)) => {
+                rec.count(&format!("key_share_shift_not_applied/{why}"));
+                rec.distinct(&(R::NAME, shards, n, who.as_str(), why));
+                continue;
+            }
+            None => {
+                rec.count("key_share_shift_not_applied/own_reveal_message_never_pulled");
+                continue;
+            }
+        };
+        rec.count("key_share_shift_applied");
+        rec.count(&format!("key_share_shift_applied/{who}"));
+        rec.seen("key_share_shift_shapes", format!("{who}/{}/S{shards}/rows{}", R::NAME, ap.constraint_rows));
+        let corrupt = attacker as usize;
+        let honest_ok = run.outs.iter().all(|o| (0..3).filter(|h| *h != corrupt).all(|h| o[h].is_ok()));
+        let witness = || json!({"case": idx, "shuffle_case": case.to_json(R::NAME), "attacker": who, "shard": shard, "row": plan.row, "word": word,
+                                "d": format!("{d:x}"), "key_share_deltas": ap.deltas.iter().map(|x| format!("{x:x}")).collect::<Vec<_>>(),
+                                "rows_the_victim_checks_on_that_shard": ap.constraint_rows,
+                                "third_share_from": format!("H{} shard {} (chunk seq {})", ap.share_from + 1, ap.share_shard, ap.share_seq),
+                                "own_reveal_message_seq": ap.seq, "outs": outs_json(&run)});
+        if !honest_ok {
+            rec.count("key_share_shift_detected");
+            for o in &run.outs {
+                rec.seen("key_share_shift_victim_outcome", err_class(&o[victim as usize]).to_string());
+            }
+            rec.count(&format!("key_share_shift_victim_outcome_on_attacked_shard/{}", err_class(&run.outs[shard as usize][victim as usize])));
+            rec.distinct(&(R::NAME, shards, n, who.as_str(), "detected"));
+            if rec.want_sample() && idx % 5 == 0 {
+                rec.sample(json!({"type": R::NAME, "rows": n, "shards": shards, "key_share_shift": witness()}));
+            }
+            continue;
+        }
+        let sig = |outcome: &str| json!({"kind": "key_share_shift_accepted", "table": table, "attacker": format!("H{}", attacker + 1),
+                                         "type": R::NAME, "multi_shard": shards > 1, "outcome": outcome});
+        match reconstruct(&run, Some(corrupt)) {
+            Ok(rows_out) if sorted(rows_out.clone()) == sorted(values.clone()) => {
+                rec.count("key_share_shift_without_effect");
+            }
+            Ok(rows_out) => {
+                let (mut gone, mut new): (Vec<u128>, Vec<u128>) = (sorted(values.clone()), sorted(rows_out));
+                let (g2, n2) = (gone.clone(), new.clone());
+                gone.retain(|v| n2.binary_search(v).is_err());
+                new.retain(|v| g2.binary_search(v).is_err());
+                rec.violation(
+                    "a rushing helper altered a row of a table it sent and shifted the MAC key share it opened towards the checking helper; every honest helper returned rows, one of them altered",
+                    sig("multiset_changed"),
+                    json!({"w": witness(), "rows_gone": gone.iter().take(4).map(|v| format!("{v:x}")).collect::<Vec<_>>(),
+                           "rows_new": new.iter().take(4).map(|v| format!("{v:x}")).collect::<Vec<_>>()}),
+                );
+            }
+            Err(e) => rec.violation(
+                "a rushing helper altered a row of a table it sent and shifted the MAC key share it opened towards the checking helper; every honest helper returned rows, but inconsistent ones",
+                sig("inconsistent_output"),
+                json!({"w": witness(), "detail": e}),
+            ),
+        }
+    }
+}
+
+#[test]
+fn verif_c05_key_share_shift_attack() {
+    let env = vlib::env();
+    let mut rec = Recorder::new("C05", "verif_c05_key_share_shift_attack");
+    let only = c05_replay_case();
+    if env.replay.is_some() && only.is_none() {
+        rec.finish();
+        return;
+    }
+    let mut idx = 0usize;
+    for ti in 0..4 {
+        for shards in 1..=3usize {
+            // tables with at most one row per 32-bit word: 1 row (32-bit rows), 2 (64-bit), 4 (112-bit)
+            for n in 1..=6usize {
+                for _rep in 0..env.pick(4, 16) {
+                    idx += 1;
+                    if !env.mine(idx) || only.is_some_and(|c| c != idx) {
+                        continue;
+                    }
+                    match ti {
+                        0 => key_shift_config::<AdditiveShare<BA32>>(&mut rec, &env, idx, n, shards),
+                        1 => key_shift_config::<AdditiveShare<BA64>>(&mut rec, &env, idx, n, shards),
+                        2 => key_shift_config::<IndistinguishableHybridReport<BA8, BA3>>(&mut rec, &env, idx, n, shards),
+                        _ => key_shift_config::<AggregateableHybridReport<BA8, BA3>>(&mut rec, &env, idx, n, shards),
                     }
                 }
             }
